@@ -195,13 +195,18 @@ def eval_fit(case):
     if not rec.mini:
         return {"violations": viol + [V("fit/minimizer-not-observed", "no Minimizer was constructed", case=case)]}
     cap = rec.mini[-1]
-    t_used, cum_used, p_used = unpack_args(cap)
     keep = (gas > 0) & ~np.isnan(press) if case["filter"] else np.ones(n, dtype=bool)
     want_p = press[keep]
     if case["window"] is not None and case["window"] > 1:
         from scipy.ndimage import uniform_filter1d  # noqa: PLC0415
 
         want_p = uniform_filter1d(want_p, size=case["window"])
+    try:
+        t_used, cum_used, p_used = unpack_args(cap)
+    except ValueError:
+        # the data reach the objective some other way (a closure, say): the row / pressure clauses are then decided
+        # through the residual alone - it must be M x forward(expected days, expected pressures) - expected cumulative
+        t_used, cum_used, p_used = np.arange(int(keep.sum())), np.cumsum(gas[keep]), want_p
     if len(t_used) != keep.sum() or not np.array_equal(np.asarray(t_used, dtype=float), np.arange(keep.sum(), dtype=float)):
         viol.append(V("rows/reindexed-days", f"{len(t_used)} days handed to the objective ({list(np.asarray(t_used)[:4])}...), "
                       f"expected 0..{int(keep.sum()) - 1} after excluding rows without production or pressure", case=case))
